@@ -1,2 +1,127 @@
+import FoxModel.Generated.Consts
+import FoxModel.Lemmas.TsrRemove
+import FoxModel.Model.Serve
+/-
+  Property C08 — trailing-slash actions happen exactly when a slash-adjusted route exists.
+
+  Routing part (which candidate `lookupByPath` reports): theorems over the model of the matcher, refined to the
+  specification enumeration `specAll` (Props/C01). Dispatch part (what ServeHTTP does with a candidate): theorems over
+  the model `Fox.Model.serve` of fox.go's ServeHTTP.
+-/
 namespace Fox.C08
+open Fox Fox.Model Fox.Spec
+
+/-- a trailing-slash candidate is reported only if no registered route below the node matches the path directly -/
+theorem tsr_only_if_no_direct {c : Node} (h : wfNode c = true) (path : Bytes) (r : Route) (ps : Binds)
+    (hres : pick (pathEvents c path []) = .found r ps true) :
+    specAll (sufsNode c) path [] = [] := by
+  rw [pathLookup_refines h] at hres
+  cases hsp : specAll (sufsNode c) path [] with
+  | nil => rfl
+  | cons x xs => rw [hsp] at hres; obtain ⟨r', ps'⟩ := x; simp only at hres; injection hres with _ _ h3; cases h3
+
+/-- **Remove-slash direction, exactly.** For a path `q ++ "/"` that no route below the node matches directly, the
+    answer of `lookupByPath` is the best direct match of `q` (highest priority, with the parameters of that match) flagged
+    as a trailing-slash match, and it is "no match" exactly when `q` has no direct match either. In particular routes
+    that match neither `q ++ "/"` nor `q` cannot influence the outcome. -/
+theorem tsr_remove_exact {c : Node} (h : wfNode c = true) (q : Bytes)
+    (hX : specAll (sufsNode c) (q ++ [SLASH]) [] = []) :
+    pick (pathEvents c (q ++ [SLASH]) []) =
+      (match specAll (sufsNode c) q [] with
+       | (r, ps) :: _ => Result.found r ps true
+       | [] => Result.none) := by
+  rw [pathLookup_refines h, hX]
+  exact pathLookup_tsr_remove h q hX
+
+/-- the root path "/" never yields a trailing-slash candidate -/
+theorem root_path_no_tsr {c : Node} (h : wfNode c = true) (r : Route) (ps : Binds) :
+    pick (pathEvents c [SLASH] []) ≠ .found r ps true := by
+  intro hres
+  have hX := tsr_only_if_no_direct h [SLASH] r ps hres
+  have := tsr_remove_exact h [] (by simpa using hX)
+  simp only [List.nil_append] at this
+  rw [this] at hres
+  have hk : specAll (sufsNode c) [] [] = [] := by
+    obtain ⟨t, k', _, hh⟩ := wfNode_head h
+    exact specAll_head_nil hh []
+  rw [hk] at hres
+  cases hres
+
+/-! ### dispatch (fox.go ServeHTTP) -/
+
+/-- the OPTIONS / 405 / 404 part never serves a route nor redirects -/
+theorem special_kind (cfg : Cfg) (rs : Roots) (m host path : Bytes) :
+    (special cfg rs m host path).kind = .options ∨ (special cfg rs m host path).kind = .noMethod ∨
+    (special cfg rs m host path).kind = .noRoute := by
+  unfold special optionsOutcome noMethodOutcome
+  split
+  · split <;> simp
+  · split
+    · split <;> simp
+    · simp
+
+/-- a trailing-slash candidate is never acted upon for CONNECT nor for the root path: the request is unmatched -/
+theorem dispatch_connect_or_root_unmatched (cfg : Cfg) (rs : Roots) (m host path urlPath : Bytes) (r : Route) (ps : Binds)
+    (hl : lookup rs m host path = .found r ps true) (hg : m = CONNECT ∨ urlPath = [SLASH]) :
+    (Model.serve cfg rs m host path urlPath).kind ≠ .route ∧ (Model.serve cfg rs m host path urlPath).kind ≠ .redirect := by
+  unfold Model.serve
+  simp only [hl]
+  unfold onTsr
+  have hcond : (m != CONNECT && urlPath != [SLASH]) = false := by
+    rcases hg with h | h <;> simp [h]
+  simp only [hcond]
+  have := special_kind cfg rs m host path
+  constructor <;> (intro h; simp only [Bool.false_eq_true, if_false] at h; rw [h] at this; simp at this)
+
+/-- a candidate on a route that ignores trailing slashes is served by that route with the adjusted parameters -/
+theorem dispatch_ignore (cfg : Cfg) (rs : Roots) (m host path urlPath : Bytes) (r : Route) (ps : Binds)
+    (hl : lookup rs m host path = .found r ps true) (hm : m ≠ CONNECT) (hu : urlPath ≠ [SLASH]) (hi : r.ignoreTS = true) :
+    (Model.serve cfg rs m host path urlPath).kind = .route ∧ (Model.serve cfg rs m host path urlPath).route = some r ∧
+      (Model.serve cfg rs m host path urlPath).params = ps := by
+  unfold Model.serve
+  simp only [hl]
+  unfold onTsr
+  have hcond : (m != CONNECT && urlPath != [SLASH]) = true := by simp [hm, hu]
+  simp [hcond, hi]
+
+/-- a redirect is issued only for a trailing-slash candidate on a redirecting route that does not ignore trailing
+    slashes, never for CONNECT or "/", only for an already clean path, with 301 for GET and 308 otherwise (the codes
+    regenerated from the Go sources) -/
+theorem dispatch_redirect (cfg : Cfg) (rs : Roots) (m host path urlPath : Bytes)
+    (hk : (Model.serve cfg rs m host path urlPath).kind = .redirect) :
+    (∃ r ps, lookup rs m host path = .found r ps true ∧ r.redirectTS = true ∧ r.ignoreTS = false) ∧
+    m ≠ CONNECT ∧ urlPath ≠ [SLASH] ∧ path = cleanRef path ∧
+    ((Model.serve cfg rs m host path urlPath).code : Int) =
+      (if m = GET then Generated.redirectCodeGet else Generated.redirectCodeOther) := by
+  have hsp := special_kind cfg rs m host path
+  unfold Model.serve at hk ⊢
+  cases hl : lookup rs m host path with
+  | none =>
+    simp only [hl] at hk
+    rw [hk] at hsp; simp at hsp
+  | bad => simp [hl] at hk
+  | found r ps tsr =>
+    cases tsr with
+    | false => simp [hl] at hk
+    | true =>
+      simp only [hl] at hk ⊢
+      unfold onTsr at hk ⊢
+      by_cases hcond : (m != CONNECT && urlPath != [SLASH]) = true
+      · simp only [hcond, if_true] at hk ⊢
+        by_cases hi : r.ignoreTS = true
+        · simp [hi] at hk
+        · simp only [hi] at hk ⊢
+          by_cases hr : (r.redirectTS && path == cleanRef path) = true
+          · simp only [hr, if_true]
+            simp only [Bool.and_eq_true, bne_iff_ne, ne_eq, beq_iff_eq] at hcond hr
+            refine ⟨⟨r, ps, rfl, hr.1, by simpa using hi⟩, hcond.1, hcond.2, hr.2, ?_⟩
+            by_cases hg : m = GET
+            · simp [hg, Generated.redirectCodeGet]
+            · have : (m == GET) = false := by simpa using hg
+              simp [hg, this, Generated.redirectCodeOther]
+          · simp only [hr, Bool.false_eq_true, if_false] at hk
+            rw [hk] at hsp; simp at hsp
+      · simp only [hcond, Bool.false_eq_true, if_false] at hk
+        rw [hk] at hsp; simp at hsp
+
 end Fox.C08
